@@ -27,6 +27,7 @@ type LoopSpec struct {
 	GhostDefs  []*Clause
 	Unroll     int
 	Invariants []*Clause
+	Entries    []*Clause // proved when the loop is entered (an assertion in front of the loop; not assumed, not an invariant)
 	Steps      []*Clause // proved at the back edge: relate this iteration's calls to the progress made
 	Assumes    []*Clause
 	Decreases  *Clause
@@ -512,7 +513,7 @@ func (sp *Specs) parseLine(cur **Contract, line, file string, ln int) error {
 				return err
 			}
 			ls.Unroll = n
-		case "invariant", "decreases", "assume", "ghostdef", "step":
+		case "invariant", "decreases", "assume", "ghostdef", "step", "entry":
 			e, err := parseCExpr(lrest)
 			if err != nil {
 				return err
@@ -523,6 +524,8 @@ func (sp *Specs) parseLine(cur **Contract, line, file string, ln int) error {
 				ls.Invariants = append(ls.Invariants, cl)
 			case "step":
 				ls.Steps = append(ls.Steps, cl)
+			case "entry":
+				ls.Entries = append(ls.Entries, cl)
 			case "assume":
 				ls.Assumes = append(ls.Assumes, cl)
 			case "ghostdef":
